@@ -5,6 +5,7 @@ import (
 	"fmt"
 	"os"
 	"path/filepath"
+	"regexp"
 	"sort"
 	"strings"
 	"sync"
@@ -29,11 +30,12 @@ type c07Variant struct {
 	OutDir      string            `json:"out_dir,omitempty"`
 	Stale       bool              `json:"stale,omitempty"`
 	PoolSeed    uint64            `json:"pool_seed,omitempty"`
-	Prelude     [][]string        `json:"prelude,omitempty"` // earlier invocations in the same process
-	PreludeWd   []string          `json:"prelude_wd,omitempty"` // earlier invocation i made through sdk.RunThriftgoAsSDK with this working directory
+	Prelude     [][]string        `json:"prelude,omitempty"`      // earlier invocations in the same process
+	PreludeWd   []string          `json:"prelude_wd,omitempty"`   // earlier invocation i made through sdk.RunThriftgoAsSDK with this working directory
 	Clock       int64             `json:"clock_offset,omitempty"` // the run starts this many nanoseconds after the baseline's wall-clock instant, with another pid
-	Block       string            `json:"block,omitempty"`      // a regular file where an earlier invocation must create a directory; removed before the observed invocation
-	SdkWd       string            `json:"sdk_wd,omitempty"`     // the observed invocation is sdk.RunThriftgoAsSDK(SdkWd, ...); its baseline is the same call with nothing before it
+	ExtraFiles  map[string][]byte `json:"extra_files,omitempty"`  // further input files of the world (a twin of the program for an earlier invocation)
+	Block       string            `json:"block,omitempty"`        // a regular file where an earlier invocation must create a directory; removed before the observed invocation
+	SdkWd       string            `json:"sdk_wd,omitempty"`       // the observed invocation is sdk.RunThriftgoAsSDK(SdkWd, ...); its baseline is the same call with nothing before it
 }
 
 // c07BaseFor: the run a variant is compared with.
@@ -98,6 +100,16 @@ func (p *c07Pair) spec(v *c07Variant) *simrt.Spec {
 			files[k] = b
 		}
 		files[v.Block] = []byte("a regular file in the way\n")
+		sp.Files = files
+	}
+	if len(v.ExtraFiles) > 0 && len(v.Prelude) > 0 {
+		files := map[string][]byte{}
+		for k, b := range sp.Files {
+			files[k] = b
+		}
+		for k, b := range v.ExtraFiles {
+			files[k] = b
+		}
 		sp.Files = files
 	}
 	sp.MapMode = v.MapMode
@@ -395,6 +407,9 @@ func c07Check(a *artefacts, tier string, seed uint64, replay string) int {
 		if fv := c07FailedEarlier(pr, pair, bv); fv != nil && i%3 == 1 {
 			vars = append(vars, fv)
 		}
+		if tv := c07TwinEarlier(pr, pair); tv != nil && i%3 == 2 {
+			vars = append(vars, tv)
+		}
 		nontrivial := false
 		foundHere := map[string]bool{}
 		for _, v := range vars {
@@ -592,10 +607,10 @@ func c07Check(a *artefacts, tier string, seed uint64, replay string) int {
 		"pairs":                                  stats,
 		"map_sites_executed_with_2_or_more_keys": siteList,
 		"map_sites_instrumented_but_not_reached_with_2_keys": notReached,
-		"schedule_fingerprints":                  len(fps),
-		"runs_per_hour":                          int(float64(runs) / wall * 3600),
-		"simulated_time_ns":                      simNanos,
-		"determinism_selftest":                   fmt.Sprintf("%d specs run twice in separate processes: identical event-log hashes", detN),
+		"schedule_fingerprints":                              len(fps),
+		"runs_per_hour":                                      int(float64(runs) / wall * 3600),
+		"simulated_time_ns":                                  simNanos,
+		"determinism_selftest":                               fmt.Sprintf("%d specs run twice in separate processes: identical event-log hashes", detN),
 		"real_vs_stub": map[string]interface{}{
 			"real": []string{"main.main", "sdk.InvokeThriftgo", "args", "parser", "semantic", "generator (FileManager, persist pool)", "golang and fastgo backends with all templates", "plugin marshalling/compression", "go/format"},
 			"stub": []string{"os/ioutil file calls (simulated disk)", "os/exec + buildinfo (simulated plugin process)", "goroutine scheduling / channels / select / WaitGroup / sync.Pool", "map iteration order in thriftgo's own packages", "argv, environment, exit"},
@@ -679,7 +694,7 @@ func c07Isolate(a *artefacts, f *c07Found) []*c07Found {
 			v = w
 		}
 	}
-	try(func(w *c07Variant) { w.Prelude, w.PreludeWd, w.Block = nil, nil, "" })
+	try(func(w *c07Variant) { w.Prelude, w.PreludeWd, w.Block, w.ExtraFiles = nil, nil, "", nil })
 	try(func(w *c07Variant) { w.Block = "" })
 	try(func(w *c07Variant) { w.PreludeWd = nil })
 	try(func(w *c07Variant) { w.Stale = false })
@@ -1096,4 +1111,37 @@ func c07FailedEarlier(r *simrt.Rand, p *c07Pair, bv *c07View) *c07Variant {
 	inv = append(inv, "-o", "/work/out", p.Main)
 	return &c07Variant{Name: "after-a-failed-run-into-the-same-directory", MapMode: "sorted", Strategy: "random", SchedSeed: r.Uint64(), PoolSeed: r.Uint64(),
 		Parallelism: 2 + r.Intn(15), Prelude: [][]string{inv}, Block: block}
+}
+
+var c07FieldName = regexp.MustCompile(`\bf(\d+_\d+)`)
+
+// c07TwinEarlier: an earlier invocation in the same process generated a twin of the program - the same
+// files under /twin with every field name f<k>_<i> spelled g<k>_<i>: same paths, same sizes, other
+// contents - into the same output directory.  Nothing of it may show in the observed run's output.
+func c07TwinEarlier(r *simrt.Rand, p *c07Pair) *c07Variant {
+	if len(p.Extra) > 0 || !strings.HasPrefix(p.Prog, "idlgen:") || strings.HasPrefix(p.Main, "/") {
+		return nil
+	}
+	twin := map[string][]byte{}
+	changed := false
+	for k, b := range p.Files {
+		if !strings.HasPrefix(k, p.Cwd+"/") || !strings.HasSuffix(k, ".thrift") {
+			continue
+		}
+		nb := c07FieldName.ReplaceAll(b, []byte("g$1"))
+		if string(nb) != string(b) {
+			changed = true
+		}
+		twin["/twin/"+strings.TrimPrefix(k, p.Cwd+"/")] = nb
+	}
+	if !changed {
+		return nil
+	}
+	inv := []string{"thriftgo", "-g", p.Cfg.gArg()}
+	if p.Cfg.Rec {
+		inv = append(inv, "-r")
+	}
+	inv = append(inv, "-o", "/work/out", "/twin/"+p.Main)
+	return &c07Variant{Name: "after-a-run-on-a-twin-program-into-the-same-directory", MapMode: "sorted", Strategy: "rtb", Parallelism: 1 + r.Intn(4),
+		Prelude: [][]string{inv}, ExtraFiles: twin}
 }
